@@ -7,6 +7,9 @@ class Operation(ASTNode):
     def __init__(self, op, args, *args_, **kwargs):
         super().__init__(*args_, **kwargs)
 
+        if not isinstance(op, str):
+            # e.g. the function name in `t.*(a)`
+            raise ParsingException(f'Operation name must be a string, got: {op}')
         self.op = ' '.join(op.lower().split())
         self.args = list(args)
         self.assert_arguments()
